@@ -299,6 +299,7 @@ func propC09() *PropSpec {
 			js = append(js, jobsN("css", "VerifCSSImport", rng(0, 3), "css: @import URL stays a well-formed string")...)
 			js = append(js, jobsN("css", "VerifCSSFuncArgs", []int{0}, "css: argument tokens never fuse (output parses to the same tokens)")...)
 			js = append(js, jobsN("js", "VerifJSNullish", []int{0}, "js: nullish / optional call / Math.pow patterns (also under unary and ** operators): output parses again")...)
+			js = append(js, jobsN("js", "VerifJSAdjacency", []int{0}, "js: x = L OP R for 17 operand forms x 18 operators: same expression tree, no comment opener or other token formed by adjacency")...)
 			js = append(js, jobsN("css", "VerifCSSDataURL", rng(1, 2), "css: url() around a re-encoded data URI stays one well-formed token")...)
 			js = append(js, jobsN("json", "VerifJSONValue", pick(rng(1, 4), rng(1, 5)), "json: RFC-valid input => RFC-valid output (reference recogniser)")...)
 			js = append(js, jobsN("xml", "VerifXMLText", pick(rng(0, 2), rng(0, 3)), "xml: well-formed input => well-formed output (reference reader)")...)
@@ -425,6 +426,7 @@ func propC01() *PropSpec {
 			js = append(js, jobsN("js", "VerifJSNullish", []int{0}, "21 nullish / optional-chaining / optional-call patterns: same behaviour on symbolic parameter values (also C16)")...)
 			js = append(js, jobsN("js", "VerifJSArith", pick([]int{1, 2}, []int{1, 2, 3}), "x = T1 o1 T2 .. with operands a / numbers / digit strings, operators + - *, optional parentheses; reference ToNumber/ToString arithmetic")...)
 			js = append(js, jobsN("js", "VerifJSCallOrder", []int{0, 1}, "host calls inside 52 expression wrappers x 18 statement contexts, and in parameter defaults / declaration lists: never dropped, duplicated or reordered")...)
+			js = append(js, jobsN("js", "VerifJSAdjacency", []int{0}, "x = L OP R for 17 operand forms x 18 operators: same expression tree after minification")...)
 			js = append(js, jobsN("js", "VerifJSBoolCoerce", []int{0}, "!!(E), E?true:false, E?Y:false ... with E = A op B over comparisons, negations and plain values: coercion only dropped for boolean E")...)
 			js = append(js, jobsN("js", "VerifJSDanglingElse", []int{0}, "9 nested if / else-if shapes x 3 body sets (blocks with lexical declarations): every else stays with its if")...)
 			return js
